@@ -200,7 +200,7 @@ def sig(missing, horizontal, clause, has_nan=False, **kw):
     return d
 
 
-def oracle_case(VG, x, t, missing, horizontal, transforms=True):
+def oracle_case(VG, x, t, missing, horizontal, transforms=True, paths=True):
     """All violations of the property statement visible on this input.
     Returns a list of (signature, what, details)."""
     out = []
@@ -294,7 +294,40 @@ def oracle_case(VG, x, t, missing, horizontal, transforms=True):
                         "time reversal does not exchange retarded and advanced measures",
                         {"forward": [obs["ret"], obs["adv"], obs["rc"], obs["ac"]],
                          "reversed": [orv["ret"], orv["adv"], orv["rc"], orv["ac"]]}))
+        elif paths and 3 <= n <= 7:
+            # path-based time-directed measures (implementation only, tolerance 1e-9;
+            # NaN = mean over an empty past/future, on both sides)
+            bad = path_measures_exchanged(VG, x, t, xr, tr, missing, horizontal)
+            if bad:
+                out.append((sig(missing, horizontal, "reversal-path-measures", has_nan, measure=bad[0]),
+                            f"time reversal does not exchange {bad[0]}",
+                            {"forward": bad[1], "reversed": bad[2]}))
     return out
+
+
+def path_measures_exchanged(VG, x, t, xr, tr, missing, horizontal):
+    """retarded/advanced closeness and betweenness, trans_betweenness of the
+    reversed series against the mirrored forward ones; None if exchanged (or
+    if the measures cannot be evaluated)"""
+    import warnings
+    try:
+        with warnings.catch_warnings(), np.errstate(all="ignore"):
+            warnings.simplefilter("ignore")
+            f = make_vg(VG, x, t, missing, horizontal)
+            r = make_vg(VG, xr, tr, missing, horizontal)
+            pairs = [("retarded_closeness", "advanced_closeness"),
+                     ("advanced_closeness", "retarded_closeness"),
+                     ("retarded_betweenness", "advanced_betweenness"),
+                     ("advanced_betweenness", "retarded_betweenness"),
+                     ("trans_betweenness", "trans_betweenness")]
+            for a, b in pairs:
+                fv = np.asarray(getattr(f, b)(), dtype=float)[::-1]
+                rv = np.asarray(getattr(r, a)(), dtype=float)
+                if not np.allclose(rv, fv, rtol=1e-9, atol=1e-12, equal_nan=True):
+                    return (f"{a}/{b}", fv[::-1].tolist(), rv.tolist())
+    except Exception:  # noqa  (Network-level failures are other properties' business)
+        return None
+    return None
 
 
 def report(ctx, VG, x, t, missing, horizontal, viol):
@@ -465,19 +498,28 @@ def run(ctx):
     # ---------------- kernel-level correspondence ----------------------------
     reqs, impl = [], []
 
-    def add_kernel(kind, x, t, N, mv=None, tag=""):
+    xreqs, ximpl = [], []   # outside the property's domain: compared, reported, no obligation
+
+    def add_kernel(kind, x, t, N, mv=None, domain=True):
         tt = t if t is not None else [Fr(i) for i in range(len(x))]
         if kind == "nvg_mv":
-            reqs.append(f"nvg_mv {N} {enc_vals(x)} {enc_vals(tt)} {enc_bools(mv)}")
+            r = f"nvg_mv {N} {enc_vals(x)} {enc_vals(tt)} {enc_bools(mv)}"
         elif kind == "nvg":
-            reqs.append(f"nvg {N} {enc_vals(x)} {enc_vals(tt)}")
+            r = f"nvg {N} {enc_vals(x)} {enc_vals(tt)}"
         else:
-            reqs.append(f"hvg {N} {enc_vals(x)}")
-        impl.append(call_kernel(K, kind, x, tt, N, mv))
+            r = f"hvg {N} {enc_vals(x)}"
+        a = call_kernel(K, kind, x, tt, N, mv)
+        if not domain:
+            xreqs.append(r)
+            ximpl.append(a)
+            ctx.count(f"out-of-domain-result:{'raise' if a.startswith('raise') else 'matrix'}")
+            return
+        reqs.append(r)
+        impl.append(a)
         nontriv = N >= 3 and len({v for v in x}) > 1
-        ctx.case(reqs[-1], nontriv, {"request": reqs[-1]} if N <= 5 else None)
+        ctx.case(r, nontriv, {"request": r} if N <= 5 else None)
         ctx.count(f"kernel:{kind}")
-        ctx.count(f"kernel-result:{'raise' if impl[-1].startswith('raise') else 'matrix'}")
+        ctx.count(f"kernel-result:{'raise' if a.startswith('raise') else 'matrix'}")
 
     def masks_for(n, x_nan=None):
         if n <= 4:
@@ -500,9 +542,15 @@ def run(ctx):
             add_kernel("nvg", xn, t, n)
             # (b) mask independent of the data (the kernel reads the mask, not NaN)
             if rng.random() < 0.5:
-                add_kernel("nvg_mv", x, t, n, m)
+                add_kernel("nvg_mv", x, t, n, m, domain=False)
+                ctx.count("out-of-domain:mask-independent-of-NaN")
         add_kernel("nvg_mv", x, t, n, [False] * n)
-    # N different from the array lengths; tied / decreasing timings
+    # Outside the property's domain (the class always passes N = len and the NaN
+    # mask; the statement is about increasing timings): N different from the array
+    # lengths, tied / decreasing timings, masks independent of the data.  The model
+    # mirrors the code there too (IndexError, ZeroDivisionError, negative divisors);
+    # agreement is recorded in the evidence but is not an obligation, so that a
+    # change of behaviour on invalid arguments alone never raises an alarm.
     extra = rng.sample(pool, min(len(pool), 150 if quick else 1500))
     for x, t, tag in extra:
         n = len(x)
@@ -512,45 +560,75 @@ def run(ctx):
         m = [rng.random() < 0.2 for _ in range(n)]
         xn = [None if mm else v for v, mm in zip(x, m)]
         for N in (n - 1, n - 2, n + 1):
-            add_kernel("nvg", x, tt, N)
-            add_kernel("hvg", x, tt, N)
-            add_kernel("nvg_mv", xn, tt, N, m)
-            ctx.count("kernel:N!=len")
-        # a tie in the timings -> ZeroDivisionError unless never reached
+            add_kernel("nvg", x, tt, N, domain=False)
+            add_kernel("hvg", x, tt, N, domain=False)
+            add_kernel("nvg_mv", xn, tt, N, m, domain=False)
+            ctx.count("out-of-domain:N!=len")
         i = rng.randrange(n - 1)
         tie = list(tt)
         tie[i + 1] = tie[i]
-        add_kernel("nvg", x, tie, n)
-        add_kernel("nvg_mv", xn, tie, n, m)
-        ctx.count("kernel:tied-timings")
-        # decreasing timings: the code divides by negative differences
+        add_kernel("nvg", x, tie, n, domain=False)
+        add_kernel("nvg_mv", xn, tie, n, m, domain=False)
+        ctx.count("out-of-domain:tied-timings")
         dec = [-v for v in tt]
         if f32_exact(x, dec):
-            add_kernel("nvg", x, dec, n)
-            add_kernel("nvg_mv", xn, dec, n, m)
-            ctx.count("kernel:decreasing-timings")
+            add_kernel("nvg", x, dec, n, domain=False)
+            add_kernel("nvg_mv", xn, dec, n, m, domain=False)
+            ctx.count("out-of-domain:decreasing-timings")
+    xmodel = common.driver(ctx.pid, xreqs)
+    xbad = [i for i in range(len(xreqs)) if xmodel[i] != ximpl[i]]
+    ctx.extra["out_of_domain"] = {
+        "requests": len(xreqs), "agree": len(xreqs) - len(xbad),
+        "first_disagreements": [f"{xreqs[i][:200]} :: model={xmodel[i][:120]} impl={ximpl[i][:120]}"
+                                for i in xbad[:3]]}
+    if xbad:
+        print(f"  note: model and kernels differ on {len(xbad)}/{len(xreqs)} requests outside the "
+              "property's domain (invalid N / tied or decreasing timings / foreign mask); "
+              "see evidence coverage.out_of_domain")
     ctx.correspond("Lean Visibility model == compiled visibility kernels", reqs, impl)
     ctx.extra["kernel_calls_compared"] = len(reqs)
 
-    # ---------------- clustering kernels on arbitrary 0/1 matrices -----------
-    creqs, cimpl = [], []
+    # ---------------- clustering kernels ---------------------------------------
+    # in domain: symmetric loop-free matrices with the class's norm d(d-1)/2;
+    # arbitrary (asymmetric) matrices and norms are compared for information only
+    creqs, cimpl, cxreqs, cximpl = [], [], [], []
     nprng = np.random.RandomState(rng.randrange(2 ** 31))
-    for c in range(150 if quick else 1500):
+    for c in range(200 if quick else 2000):
         n = rng.choice([0, 1, 2, 3, 4, 5, 6, 8, 12])
         A = (nprng.rand(n, n) < rng.choice([0.3, 0.6, 0.9])).astype(np.int8)
-        if rng.random() < 0.6:
+        domain = rng.random() < 0.7
+        if domain:
             A = np.triu(A, 1)
             A = A | A.T
-        norm = [Fr(rng.choice([0, 0, 1, 2, 3, 6, 10])) for _ in range(n)]
         for name, fn in (("retclust", K._retarded_local_clustering),
                          ("advclust", K._advanced_local_clustering)):
+            if domain:
+                d = [int(A[i, :i].sum()) if name == "retclust" else int(A[i, i:].sum())
+                     for i in range(n)]
+                norm = [Fr(k * (k - 1), 2) for k in d]
+            else:
+                norm = [Fr(rng.choice([0, 0, 1, 2, 3, 6, 10])) for _ in range(n)]
             out = np.zeros(n)
             fn(n, np.ascontiguousarray(A.reshape(n, n)), np.array([float(v) for v in norm]), out)
-            creqs.append(f"{name} {n} {enc_mat(A)} {enc_vals(norm)}")
-            cimpl.append(",".join(canon_rat(v) for v in out) or "-")
-            ctx.case(creqs[-1], n >= 3 and A.any())
-            ctx.count(f"kernel:{name}")
+            r = f"{name} {n} {enc_mat(A)} {enc_vals(norm)}"
+            a = ",".join(canon_rat(v) for v in out) or "-"
+            if domain:
+                creqs.append(r)
+                cimpl.append(a)
+                ctx.case(r, n >= 3 and A.any())
+                ctx.count(f"kernel:{name}")
+            else:
+                cxreqs.append(r)
+                cximpl.append(a)
+                ctx.count("out-of-domain:clustering-on-asymmetric-matrix")
     ctx.correspond("Lean clustering counters == compiled clustering kernels", creqs, cimpl)
+    cxmodel = common.driver(ctx.pid, cxreqs)
+    cxbad = [i for i in range(len(cxreqs)) if cxmodel[i] != cximpl[i]]
+    ctx.extra["out_of_domain"]["clustering_requests"] = len(cxreqs)
+    ctx.extra["out_of_domain"]["clustering_agree"] = len(cxreqs) - len(cxbad)
+    if cxbad:
+        print(f"  note: clustering model and kernels differ on {len(cxbad)}/{len(cxreqs)} "
+              "asymmetric matrices / foreign norms (outside the property's domain)")
 
     # ---------------- object level: correspondence + oracle -------------------
     oreqs, oimpl, ocases = [], [], []
@@ -582,15 +660,23 @@ def run(ctx):
             ctx.count(f"object:missing_values={missing},horizontal={hor},"
                       f"nan={'yes' if any(v is None for v in xx) else 'no'}")
     ctx.correspond("Lean classLog/degree/clustering model == VisibilityGraph", oreqs, oimpl)
+    # informative samples for the evidence: object-level cases with their answers
+    good = [i for i, c in enumerate(ocases) if 5 <= len(c[0]) <= 8 and len(set(c[0])) > 2]
+    for i in rng.sample(good, min(3, len(good))):
+        ctx.samples.insert(0, {"request": oreqs[i],
+                               "answer(A|ret|adv|deg|retclust|advclust)": oimpl[i]})
 
     # the oracle (independent of the model) on every object-level case
     nfail = 0
     for k, (xx, t, missing, hor) in enumerate(ocases):
         do_tr = len(xx) <= 8 or rng.random() < 0.3
-        viol = oracle_case(VG, xx, t, missing, hor, transforms=do_tr)
+        do_paths = do_tr and 3 <= len(xx) <= 7 and rng.random() < (0.15 if quick else 0.03)
+        viol = oracle_case(VG, xx, t, missing, hor, transforms=do_tr, paths=do_paths)
         ctx.count("oracle:cases")
         if do_tr:
             ctx.count("oracle:with-affine-and-reversal")
+        if do_paths:
+            ctx.count("oracle:with-path-measures-under-reversal")
         if viol:
             nfail += 1
             if nfail <= 40:
